@@ -169,8 +169,8 @@ def exhaustive_tasks(thorough):
     else:
         ns, nls, mis, sws = (1, 2, 3, 4), (1, 2, 3), (1, 2, 3, 4), (1, 2)
     for n, nl, mi, s0 in itertools.product(ns, nls, mis, sws):
-        if thorough and n * mi > 12:
-            continue  # (4,4): handled separately on a subset of configurations
+        if thorough and (n * mi > 12 or (nl == 3 and n * mi > 9)):
+            continue  # (4,4) and the large 3-level tables: handled separately on a subset of configurations
         mids = (1, 2) if (nl > 2 and thorough) else (1,)
         for mid in mids:
             nsw = level_sweeps(nl, s0, mid)
@@ -181,9 +181,7 @@ def exhaustive_tasks(thorough):
                 tasks.append((cfg, [(m, 0, 0) for m in range(1 << (n * mi))]))
                 space.append(cfg)
     if thorough:
-        for nl, pt, jac, a2d in [(1, None, True, False), (1, None, False, False), (1, None, False, True),
-                                 (2, 'pfasst_burnin', True, False), (2, None, True, True), (3, 'pfasst_burnin', True, False),
-                                 (3, 'fine_only', True, True), (2, 'fine_only', True, False)]:
+        for nl, pt, jac, a2d in [(1, None, False, False), (2, 'pfasst_burnin', True, False), (3, 'pfasst_burnin', True, True)]:
             cfg = (4, nl, 4, tuple(level_sweeps(nl, 1)), pt, jac, a2d, 4)
             allm = [(m, 0, 0) for m in range(1 << 16)]
             for i in range(0, len(allm), 4096):
@@ -262,14 +260,27 @@ Definition bad (c : cfg) (n W : nat) (code : nat) (T : list Z) (ms : list (Z * Z
 
 
 def write_shard(ck, idx, items):
-    """items: list of (cfg, code, trace, masks). Returns path."""
+    """items: list of (cfg, code, trace, masks), sorted by trace. Traces are front-coded: each distinct trace is
+    written as (common prefix with the previous one) ++ suffix, so that Coq parses few numerals. Returns path."""
     lines = [HEADER]
     traces = {}
+    prev = None
     for cfg, code, trace, masks in items:
         key = tuple(trace)
-        if key not in traces:
-            traces[key] = 'T%d' % len(traces)
-            lines.append('Definition %s : list Z := [%s].' % (traces[key], ';'.join(str(x) for x in trace)))
+        if key in traces:
+            continue
+        name = 'T%d' % len(traces)
+        traces[key] = name
+        if prev is None:
+            lines.append('Definition %s : list Z := [%s].' % (name, ';'.join(hex(x) for x in key)))
+        else:
+            pk, pname = prev
+            p = 0
+            while p < len(pk) and p < len(key) and pk[p] == key[p]:
+                p += 1
+            lines.append('Definition %s : list Z := firstn %d%%nat %s ++ [%s].'
+                         % (name, p, pname, ';'.join(hex(x) for x in key[p:])))
+        prev = (key, name)
     exprs = []
     for cfg, code, trace, masks in items:
         n, W = cfg[0], cfg[7]
@@ -357,7 +368,7 @@ def run(ck):
         'description': ('all 2^(num_procs*maxiter) converged-tables for num_procs<=%d, levels<=%d, maxiter<=%d, nsweeps[0]<=2 '
                         'x predictor types x mssdc_jac x all_to_done%s; all (converged, force_done, force_continue) tables for '
                         'num_procs<=2, maxiter=2%s'
-                        % ((4, 3, 4, ' ((4,4) on 8 configurations)', '') if thorough else
+                        % ((4, 3, 4, ' (16-bit tables (4 steps x 4 iterations) on 3 configurations, 3-level configurations up to 9-bit tables)', '') if thorough else
                            (3, 2, 3, '', ' (num_procs=2: at most one force table non-zero)'))),
         'runs': sum(len(t[1]) for t in ex_tasks + f_tasks)}
     ck.cov['distinct_decision_paths_read_by_impl'] = npaths
@@ -365,9 +376,10 @@ def run(ck):
     # ---- implementation-side oracle verdicts
     seen = set()
     for cfg, masks, kind, detail in problems:
-        if (cfg, kind) in seen:
+        key = (kind, cfg[1] > 1, cfg[6])
+        if key in seen or len(seen) >= 12:
             continue
-        seen.add((cfg, kind))
+        seen.add(key)
         ck.violation('block protocol violated (%s): %s' % (kind, detail),
                      {'cfg': cfg, 'masks': masks, 'kind': kind, 'detail': detail},
                      match={'kind': kind, 'predict_type': str(cfg[4]), 'levels': cfg[1], 'all_to_done': cfg[6]})
@@ -375,15 +387,31 @@ def run(ck):
                   '%d findings' % len(problems), kind='oracle')
 
     # ---- model correspondence, evaluated by the Coq kernel
-    shards = []
-    cur, cost = [], 0
-    for it in sorted(items, key=lambda x: -len(x[2])):
-        c = len(it[2]) + 4 * len(it[3])
-        if cur and cost + c > 60000:
-            shards.append(cur)
-            cur, cost = [], 0
+    items.sort(key=lambda x: (tuple(x[2]), x[0][:3]))
+    # cost model: numerals to parse (front-coded suffixes) + model evaluations
+    costs = []
+    prev = None
+    for it in items:
+        key = tuple(it[2])
+        if prev is None or key != prev:
+            p = 0
+            if prev is not None:
+                while p < len(prev) and p < len(key) and prev[p] == key[p]:
+                    p += 1
+            c = len(key) - p
+        else:
+            c = 0
+        prev = key
+        costs.append(c + 0.3 * len(it[3]) * (1 + len(key) / 100.0))
+    total = sum(costs) or 1
+    nshards = max(1, min(32, int(total / 4000) + 1))
+    shards, cur, acc = [], [], 0.0
+    for it, c in zip(items, costs):
         cur.append(it)
-        cost += c
+        acc += c
+        if acc >= total / nshards and len(shards) < nshards - 1:
+            shards.append(cur)
+            cur, acc = [], 0.0
     if cur:
         shards.append(cur)
     paths = [write_shard(ck, i, sh) for i, sh in enumerate(shards)]
